@@ -142,7 +142,7 @@ def run(cx: Cx):
     rsites = cx.effects.sites_of((CORE + 'Model', 'random'))
     for s in rsites:
         v = s.ev.data.get('value')
-        if s.fn.qualname == CORE + 'Model.__init__' and s.kind == 'rebind' and v in (App('call', (Sym('random.Random'), Sym('seed'))), App('.Random', (Sym('random'), Sym('seed')))):
+        if s.owner_q == CORE + 'Model.__init__' and s.kind == 'rebind' and v in (App('call', (Sym('random.Random'), Sym('seed'))), App('.Random', (Sym('random'), Sym('seed')))):
             cx.ok('R-ENTROPY', 'Model.random = random.Random(seed), seed unmodified', where=s.where, function=s.fn.qualname)
         else:
             cx.violation('R-ENTROPY', s.fn.qualname, 'model-generator-is-Random-of-the-seed',
